@@ -80,6 +80,12 @@ CHECKS = {
         "assumptions": A_SIM + ["byte-level fuzzing only waits for crashes and decoder contract breaches; semantic containment is checked for the enumerated invalidity classes"],
         "parts": [sim(300, 5000), unit("C15-decode", 60000, 600000), fuzz("FuzzDecoders", 90)],
     },
+    "C13": {
+        "level": "exploration",
+        "rule": "rapid stateful generation over two query resources (model and collection) with drawn normalisation maps (raw = normalised, several raws aliasing one normalised query, a non-query base answering with a query), subscriptions from 1-3 connections with both aliasing gets in flight in either answer order, query events answered with events / full model or collection / error / notFound / timeout per query in any order, further events, resets and subscriptions inside the window; oracle: no get for a raw query already fetched and linked (within a cache incarnation, resets and deletes considered); on a query event exactly one query request per distinct loaded normalised query (hook pre-state); no get.<n> while query requests for n are outstanding; plus the C01 convergence oracle per alias rid and the C07 every-request-answered oracle (processing always resumes). Non-trivial = two raw queries share a normalised query and a query event occurred with >= 2 cached queries; distinct by script hash",
+        "assumptions": A_SIM + ["timeouts are the adapter's completion with system.timeout, not elapsed time"],
+        "parts": [sim(300, 5000)],
+    },
     "C07": {
         "level": "exploration",
         "rule": "rapid stateful generation of request mixes (1-2 connections, subscribe/get/unsubscribe/call/auth/new/ill-formed methods, every outcome and order of the dependent access/get/call answers, events, deletes, revocations), end-of-history epilogue answering everything; oracle: reference client counts responses per id (never two, never unknown, error objects with string code/message) and at quiescence every id on an open connection has exactly one. Non-trivial = >=2 requests for one rid overlapped, or an unsubscribe/unsubscribe event/delete hit a rid with a pending request; distinct by hash of the executed script",
@@ -97,6 +103,8 @@ CHECKS = {
 SIM_NOTE = "trusted: the harness (mock mq, reference client/service, quiescence detector) and rapid; exploration never proves absence; goroutine interleavings inside the gateway are sampled only"
 
 META = {
+    "C13": {"engine": "sim", "design_ref": "6 C13", "technique": "stateful property-based testing (rapid) with trace invariants on query/get requests and the convergence and exactly-one-response oracles",
+            "text": "generated aliasing-query histories with every answer order and outcome of the query requests; the capacity-countdown lock is attacked through stall detection at exact quiescence.", "note": SIM_NOTE},
     "C15": {"engine": "sim", "design_ref": "6 C15", "technique": "fault-injecting stateful property-based testing (rapid) with journal-based crash attribution, decoder property tests and native fuzzing",
             "text": "malformed messages from enumerated invalidity classes are injected at every boundary at drawn steps of valid histories; crash, leak, cache change, divergence or stall is a violation.", "note": SIM_NOTE},
     "C14": {"engine": "sim", "design_ref": "6 C14", "technique": "property-based differential testing (rapid) of the validators and decoders against references, plus stateful generation of hostile requests with a subject-hygiene invariant on the messaging boundary; native fuzzing in thorough",
